@@ -30,6 +30,24 @@ func init() {
 			}
 		}
 	}
+	// `c07 dis FILE...`: disassembly (FunctionProto.String) and the outcome of a traced run
+	extraCmds["dis"] = func(files []string) {
+		for _, f := range files {
+			b, err := os.ReadFile(f)
+			if err != nil {
+				fmt.Println(f, err)
+				continue
+			}
+			p, errs, pan := compileSrc(string(b), f)
+			if p == nil {
+				fmt.Println(f, "ERR", errs, "PANIC", pan)
+				continue
+			}
+			fmt.Println(trunc(p.String(), 6000))
+			_, res := runTraced(p, dumpProto(p), 100000, nil)
+			fmt.Printf("results=%v err=%q panicked=%q gopanic=%v insts=%d\n", res.Results, trunc(res.Err, 200), res.Panicked, res.GoPanic, res.Insts)
+		}
+	}
 	extraCmds["gen"] = func(args []string) {
 		seed, n, show := uint64(1), 1, -1
 		fmt.Sscan(args[0], &seed)
